@@ -91,6 +91,17 @@ def apply_wiring(st, outs, na_idx, w):
             _set_field(st, a, w_)
 
 
+def _label(st, k):
+    """the label an output holds, decoded by the harness from the block (not through the accessor under test); a code
+    beyond the table's labels has the label the library documents for it: 'Unknown'"""
+    a = st.accessors[k]
+    w_ = int.from_bytes(st.status_block[a.pos:a.pos + a.length], "big")
+    if a.bitpos is not None:
+        w_ = (w_ >> a.bitpos) & a.bitmask
+    items = a.items or []
+    return items[w_] if w_ < len(items) else "Unknown"
+
+
 def _demand_for(st, dev):
     for ud in st.user_demands:
         if f"Ud{dev}".upper() == ud.upper():
@@ -200,6 +211,21 @@ def run(ctx):
                     if labs:
                         w[k] = rng.choice(labs)
                 wirings.append(w)
+            # an output holding a code BEYOND its label table (a controller newer than the shipped table), next to
+            # ordinary devices: that output wires nothing, the rest of the inventory is unaffected
+            beyond = []
+            for k in outs:
+                a = st.accessors[k]
+                cap = a.bitmask if a.bitpos is not None else (255 if a.length == 1 else 65535)
+                if len(a.items or []) <= cap:
+                    beyond.append((k, len(a.items)))
+            for (k, code) in rng.sample(beyond, min(3, len(beyond))):
+                w = {k: code}
+                for k2 in rng.sample(outs, min(3, len(outs))):
+                    labs = [i for i, lab in enumerate(st.accessors[k2].items or []) if lab not in ("NA", "")]
+                    if k2 != k and labs:
+                        w[k2] = rng.choice(labs)
+                wirings.append(w)
             # nothing wired first, then one single accessory: a table pair for which BOTH fail cannot be built at
             # all (C11 / D6) and is skipped; a failure of the empty wiring alone is a verdict
             single = next((w for w in wirings if len(w) == 1 and any(
@@ -215,7 +241,7 @@ def run(ctx):
                 st.set_status_block(base)
                 ok = True
                 apply_wiring(st, outs, na_idx, w)
-                labels = [st.accessors[k].value for k in outs]
+                labels = [_label(st, k) for k in outs]
                 if wi == 2 and empty_failed is not None and pair_ok:
                     # the pair can be built with an accessory wired, but not with nothing wired
                     broken.append((f"{c['name']}+{l['name']}", {}, empty_failed[0], empty_failed[1]))
@@ -230,7 +256,7 @@ def run(ctx):
                             w2 = wirings[wi + 1]
                             saved = st.status_block
                             apply_wiring(st, outs, na_idx, w2)
-                            labels2 = [st.accessors[k].value for k in outs]
+                            labels2 = [_label(st, k) for k in outs]
                             try:
                                 with contextlib.redirect_stdout(io.StringIO()):
                                     recs.append(record(rig, st, labels2, known, sensor_defs, which, facade=kept[0]))
